@@ -27,7 +27,10 @@ Diamond4 == Close({<<2,1>>, <<3,1>>, <<4,2>>, <<4,3>>})
 Deep4    == Close({<<2,1>>, <<3,2>>, <<4,2>>})
 Target4  == Close({<<3,1>>, <<3,2>>, <<4,3>>})
 Named4 == {Chain4, Diamond4, Deep4, Target4}
-OnlyDiamond == {Diamond4}
+(* the same shapes as written (not closed), for the configs where a module in the middle has no service *)
+Named4Open == {{<<2,1>>, <<3,2>>, <<4,3>>}, {<<2,1>>, <<3,1>>, <<4,2>>, <<4,3>>}, {<<2,1>>, <<3,2>>, <<4,2>>}, {<<3,1>>, <<3,2>>, <<4,3>>}}
+Connected(g) == \A m \in Mod : \E e \in g : e[1] = m \/ e[2] = m
+ConnectedShapes == {g \in ClosedShapes : Connected(g)}
 SvcSetsHoles == {s \in SUBSET Mod : Cardinality(s) = N - 1}
 NoFault == \A m \in Mod : script[m] = [start |-> "ok", run |-> "block", stop |-> "ok"]
 AllStarted == \A m \in svc : wStarted[m]
@@ -38,6 +41,11 @@ InitMain  == Init /\ svc = Mod /\ (AllStarted \/ (NoFault /\ AllButOne))
 InitWide  == Init /\ svc = Mod /\ (AllStarted \/ AllButOne)
 (* one module has no service (transparent in the middle of the graph) *)
 InitHoles == Init /\ svc \in SvcSetsHoles /\ AllStarted
+(* quick tier: without a fault every shape, all wrappers or all but one started; with a fault  *)
+(* the shapes in which every module takes part in a dependency, all wrappers started          *)
+InitQuick == Init /\ svc = Mod /\ IF NoFault THEN AllStarted \/ AllButOne ELSE AllStarted /\ Connected(deps)
+(* liveness config *)
+LiveSpec == InitMain /\ [][Next]_vars /\ Fairness
 (* every subset of wrappers started *)
 InitAny   == Init /\ svc = Mod
 =============================================================================
